@@ -134,6 +134,14 @@ func c06Jobs(tier string) []string {
 		// id -> type hint configured (the executor then decides per lookup whether to query)
 		jobs = append(jobs, fmt.Sprintf("%s|e1p|mutK%d", w, k), fmt.Sprintf("%s|s1c|mutK%d", w, k-1))
 	}
+	// start-up with one service not answering its introspection: a gateway that starts nevertheless
+	// is held to the same oracle over the services it did learn about
+	for _, w := range []string{"W0+mutation-second-service", "Wmin+mutation-second-service", "W0+mutation-second-service+third-service"} {
+		n := 2 + strings.Count(w, "third-service")
+		for i := 1; i <= n; i++ {
+			jobs = append(jobs, fmt.Sprintf("%s|e0pi%d|mutK3", w, i))
+		}
+	}
 	return jobs
 }
 
@@ -142,7 +150,8 @@ func init() {
 		ID:    "C06",
 		Level: "fault_enumeration",
 		Rule: "case = (world with mutation roots on 1-3 services, downstream batch size m in {1,2,3000}, planner plain/cached, every mutation operation with <=K fields incl. the same field twice under aliases) " +
-			"x delivery mode {single, twice on a warm plan cache, batch of two} x fault plan {none, each fault kind on each downstream HTTP call of the execution}; oracle on the services' request logs and execution counters; non-trivial = reached a service",
+			"x delivery mode {single, twice on a warm plan cache, batch of two} x fault plan {none, each fault kind on each downstream HTTP call of the execution}; plus start-up through the real introspector with one service (each position) failing its introspection " +
+			"(a gateway that starts anyway is held to the same oracle); oracle on the services' request logs and execution counters; non-trivial = reached a service",
 		Assumptions: []string{"the in-memory services' logs are the observation; faults are answered after the request was logged (the service did receive it)"},
 		Jobs:        c06Jobs,
 		Budget: func(tier string) time.Duration {
@@ -159,6 +168,13 @@ func init() {
 				return
 			}
 			f, err := NewFed(w, cfg)
+			if err != nil && cfg.IntroFail > 0 {
+				// the gateway does not start without the service: nothing can be sent anywhere
+				if em.Begin(0, append(append([]string{}, w.Atoms...), cfg.Atoms()...), replayCase{World: wd.Name(), Cfg: cfg.String(), Extra: "startup refused: " + Template(err.Error())}) {
+					em.Done(false)
+				}
+				return
+			}
 			if err != nil {
 				em.GenError("gateway: " + err.Error())
 				return
